@@ -44,7 +44,7 @@ Definition rc_retrieve_into (c : rcontainer) (v : gval) (inout : bitmap) : pres 
       match ac_query_text [32] v with                            (* ahoholder.BuildAcMatchContent *)
       | POk t =>
         let matched := fun m : list (text * bitmap) =>
-          flat_map (fun kb => match fst kb with [] => [] | _ => if substring (fst kb) t then [snd kb] else [] end) m in
+          flat_map (fun kb => match fst kb with [] => [] | _ => if kw_found (fst kb) t then [snd kb] else [] end) m in
         let r1 := fold_left bm_or (matched inc) t0 in
         (POk tt, fold_left bm_andnot (matched exc) r1)
       | e => (pfail e, t0)
